@@ -6,11 +6,13 @@ SPEC = {
     "level": "fault_enumeration",
     "parts": [part("c10_params", "asan", ["c10_params.cpp"], ldflags=_WRAP,
                    timeout={"quick": 1500, "thorough": 7200})],
-    "rule": "corpus = every loadable tests/input_files/*/test.in plus the harness's feature-rich configurations "
+    "rule": "phase 0: six listed complete configurations that the keyword-by-keyword enumeration does not produce (descending atom ranges, too few "
+            "reference positions with atomPermutation, timeStepFactor 0 with an extended coordinate, colvarsTrajFrequency 2^61), each in its own child: "
+            "refused with a message, never fatal; then corpus = every loadable tests/input_files/*/test.in plus the harness's feature-rich configurations "
             "(harness/c10_extras.h), all checked to load and run cleanly; the keyword registry of every object type "
             "(module, colvar, each component type, atom group, fitting group, each bias type, grid) is harvested from "
             "colvarparse::allowed_keywords when check_keywords() is called; every (block, keyword) of every configuration "
-            "x value class {0, -1, 1, 10^6, 2^63-1, 1e300, nan, inf, empty, non-existent name, list one element too "
+            "x value class {0, -1, 1, 10^6, 2^63-1, 2^61, 1e300, nan, inf, empty, non-existent name, list one element too "
             "long/short, keyword removed, lower/upper boundaries swapped, atom ranges 3-1/0-2/1-10^6/2-2} (thorough: "
             "+ {-1e300, -inf, 2^31, 0.5, 1e-300, -10^6}) is substituted, the configuration parsed, 4 steps run, the state "
             "written to a string, output files written, the run ended and the module destroyed, in a forked child under "
